@@ -1,0 +1,10 @@
+//go:build verif
+
+package tree
+
+import "github.com/pinealctx/neptune/ds/tree/btree"
+
+// VerifInner exposes the wrapped tree to the /verif simulation checks (structural check only).
+func (b *BTree) VerifInner() *btree.BTree {
+	return b.t
+}
